@@ -110,6 +110,24 @@ def do_call(pp, w, handles, recipe, call):
                 recipe.create_container('X', '-5 mL')
             elif k == 'dilute-unit':
                 recipe.dilute(A, nacl, '1 xM', water)
+            elif k.startswith('impostor-'):
+                # an object of the wrong kind that carries the NAME of the stock (a Substance 'A' next to the Container 'A' - the
+                # destination was forgotten): a recipe accepts only the objects declared to it, whatever they are called.
+                # Refusing with TypeError or ValueError is the same refusal.
+                imp = pp.Substance.liquid('A', 18.0153, 1.0)
+                try:
+                    if k == 'impostor-remove':
+                        recipe.remove(imp, w['absent'])
+                    elif k == 'impostor-fill_to':
+                        recipe.fill_to(imp, water, '12 mL')
+                    elif k == 'impostor-dilute':
+                        recipe.dilute(imp, nacl, DILUTE_C[0], water)
+                    elif k == 'impostor-source':
+                        recipe.transfer(imp, A, '10 uL')
+                    else:
+                        recipe.transfer(A, imp, '10 uL')
+                except TypeError as e:
+                    raise ValueError(str(e))
             else:
                 raise env.InternalError(f"unknown bad call {k}")
         elif op == 'start_stage':
@@ -299,7 +317,8 @@ def variants(action, args, nsteps):
         if args[0] == 'create':
             return [('bad', k) for k in ('csf-unreachable', 'csf-zero', 'csf-unit', 'csf-quantity', 'cs-three', 'cs-one',
                                          'cc-unit', 'cc-negative')]
-        return [('bad', 'dilute-unit')]
+        return [('bad', k) for k in ('dilute-unit', 'impostor-remove', 'impostor-fill_to', 'impostor-dilute', 'impostor-source',
+                                     'impostor-destination')]
     if action == 'Bake':
         return [('bake',)]
     raise env.InternalError(f"no concretisation for {action}{args}")
